@@ -21,6 +21,7 @@ Genuine == {
   CAcert("R2",  "R2", "R2", "kR2", "kR2"),                 \* second root
   CAcert("R1b", "R1", "R1", "kR1", "kR1"),                 \* R1 re-issued: same name and key, other certificate
   CAcert("R1n", "R1n", "R1n", "kR1", "kR1"),               \* R1's key under another name
+  CAcert("R1x", "R1", "R2", "kR1", "kR2"),                 \* R1 cross-signed by R2 (R1 itself links to it)
   CAcert("I1",  "I1", "R1", "kI1", "kR1"),                 \* intermediate under R1
   CAcert("I1x", "I1", "R2", "kI1", "kR2"),                 \* the same intermediate cross-signed by R2
   CAcert("I2",  "I2", "I1", "kI2", "kI1"),                 \* second-level intermediate
@@ -59,7 +60,7 @@ TRecs(n) == {Cert[i] : i \in TSets[n]}
 Bases == {
   <<"L2", "I2", "I1">>, <<"L2", "I2", "I1", "R1">>, <<"L2", "I2", "I1x">>, <<"L2", "I2", "I1x", "R2">>,
   <<"L2", "I2", "I1", "R1b">>,
-  <<"L1", "I1">>, <<"L1", "I1", "R1">>, <<"L1", "I1x", "R2">>,
+  <<"L1", "I1">>, <<"L1", "I1", "R1">>, <<"L1", "I1x", "R2">>, <<"L1", "I1", "R1x", "R2">>, <<"L1", "I1", "R1", "R1x", "R2">>,
   <<"LP", "P", "I1">>, <<"LP", "P", "I1", "R1">>, <<"LP", "P", "I1x", "R2">>,
   <<"LQ", "I2", "I1">>, <<"LQ", "I2", "I1", "R1">>,
   <<"LCA", "I1">>, <<"LCA", "I1", "R1">>,
